@@ -1,10 +1,13 @@
 #!/bin/bash
-# with_patch.sh <ID> <patch.diff> [check args...] : run a check against a scratch export of /repo HEAD with the patch applied
+# with_patch.sh <ID> <patch.diff> [check args...] : run a check against a scratch export of /repo with the patch applied.
+# The export is /repo HEAD, or the commit named in a file `base` next to the patch (seeded changes made before a later fix: commit
+# touched the same lines).
 set -e
 ID=$1; P=$(realpath $2); shift 2
 D=$(mktemp -d /tmp/prepo-XXXXXX)
 trap 'rm -rf $D' EXIT
-git -C /repo archive HEAD ccl | tar -x -C $D
+C=HEAD; [ -f "$(dirname $P)/base" ] && C=$(cat "$(dirname $P)/base")
+git -C /repo archive $C ccl | tar -x -C $D
 (cd $D && patch -p1 -s < $P)
 VERIF_REPO=$D /verif/bin/check $ID --no-evidence "$@" 2>&1 | grep -v " PASS "
 echo "exit=${PIPESTATUS[0]}"
